@@ -135,12 +135,12 @@ def fstr_str_total(s: str) -> bool:
     return _fstr_str(s, 15, True, True)
 
 
-def _fstr_bytes(b, qmask, total):
+def _fstr_bytes(b, qmask, total, pep701=False):
     from python_minifier.f_string import Bytes
     allowed = _allowed(qmask)
     with eval_stubbed():
         try:
-            t = str(Bytes(b, list(allowed)))
+            t = str(Bytes(b, list(allowed), pep701)) if pep701 else str(Bytes(b, list(allowed)))
         except (ValueError, SyntaxError, UnicodeEncodeError, AssertionError):
             return not (total and qmask == 15)
     kind, value = rlit.decode_literal_sequence(t)
@@ -161,8 +161,8 @@ def fstr_bytes_total(b: bytes) -> bool:
     pre: len(b) <= 4
     post: _
     """
-    # C08b: with all four quotes available (3.12) every bytes value has a representation
-    return _fstr_bytes(b, 15, True)
+    # C08b: with all four quotes available and PEP 701 (3.12) every bytes value has a representation
+    return _fstr_bytes(b, 15, True, True)
 
 
 def bytes_known_class(b):
@@ -273,7 +273,7 @@ def fstr_bytes_total_alpha(n: int, i0: int, i1: int, i2: int) -> bool:
     pre: (n > 1 or i1 == 0) and (n > 2 or i2 == 0)
     post: _
     """
-    return _fstr_bytes(_alpha_bytes(n, i0, i1, i2), 15, True)
+    return _fstr_bytes(_alpha_bytes(n, i0, i1, i2), 15, True, True)
 
 
 def alpha_str_known(n, i0, i1, i2):
